@@ -828,10 +828,13 @@ class LogicalLinkController(object):
             raise err.Error(errno.EOPNOTSUPP)
         while True:
             client = socket.accept()
-            sap = None if client.addr is None else self.sap[client.addr]
-            if sap is None:
-                raise err.Error(errno.EPIPE)  # link terminated meanwhile
-            sap.insert_socket(client)
+            with self.lock:
+                # under the lock, terminate() must not run between the
+                # access point lookup and the socket registration
+                sap = None if client.addr is None else self.sap[client.addr]
+                if sap is None:
+                    raise err.Error(errno.EPIPE)  # link terminated meanwhile
+                sap.insert_socket(client)
             log.debug("new data link connection ({0} <=== {1})"
                       .format(client.addr, client.peer))
             if client.send_miu > self.cfg['send-miu']:
